@@ -13,6 +13,15 @@ TWINS = ["caf\u00e9", "cafe\u0301", "\u2126"]
 PARSED = {"p1": 'redirect "bare@example.com";\n', "p2": "keep;\n"}
 
 
+# definitions the factory refuses while it builds the filter (after the name checks): the call raises and must leave nothing behind
+BADDEFS = {
+    "x1": ([("Subject", ":is", "x")], [("nosuchaction", "x")]),
+    "x2": ([("Subject", ":is", "x")], [("fileinto", 5)]),
+    "x3": ([("Subject", ":is", "x")], [("fileinto", ":copy", "Ok"), ("fileinto", ":bogus", "x")]),
+    "x4": ([("envelope", ":is", ["From"], ["a"]), ("nottrue",)], [("keep",)]),
+}
+
+
 def events(rich=False):
     ev = []
     for n in NAMES:
@@ -49,6 +58,11 @@ def events(rich=False):
     ev.append(("update", TWINS[0], TWINS[1], "d2"))
     ev.append(("update", "a", TWINS[2], "d2"))
     ev.append(("replace", TWINS[1], ("fresh", "d2"), TWINS[0], None))
+    ev.append(("badadd", "a", "x1"))
+    ev.append(("badadd", "c", "x2"))
+    ev.append(("badadd", "b", "x3"))
+    ev.append(("badupdate", "a", "x1"))
+    ev.append(("badupdate", "b", "x4"))
     ev.append(("disable", b"a"))
     ev.append(("remove", b"b"))
     ev.append(("replace", "a", ("fresh", "d2"), b"a", None))
@@ -80,6 +94,18 @@ def apply(ev, fs, model, ns):
         except F.AlreadyExists:
             return ("exc", "FilterAlreadyExists")
 
+    if kind in ("badadd", "badupdate"):
+        c, a = BADDEFS[ev[2]]
+        if kind == "badupdate" and model._find(ev[1]) is None:
+            return None
+        try:
+            if kind == "badadd":
+                fs.addfilter(ev[1], list(c), list(a))
+            else:
+                fs.updatefilter(ev[1], ev[1], list(c), list(a))
+        except Exception:  # noqa
+            return ("exc", "refused"), ("exc", "refused")  # which exception is not specified; the model is unchanged
+        return None  # this tree takes the definition after all: not the situation the event is about
     if kind == "add":
         c, a, mt = F.DEFS[ev[2]]
         return run(fs.addfilter, ev[1], list(c), list(a), mt), mrun(model.add, ev[1], ev[2])
@@ -238,6 +264,11 @@ def replay_history(hist, ns, full_last=True, loaded=False):
                 after = F.render(fs)
             except Exception as e:  # noqa
                 after = "%s: %s" % (type(e).__name__, e)
+            if ev[0] in ("badadd", "badupdate"):
+                # a definition refused half-way may already have been consulted for its extensions: the require line is not part of
+                # the list behaviour this property describes (C06 judges it); everything below it is
+                strip = lambda t: t.split("\n\n", 1)[1] if t.startswith("require") and "\n\n" in t else t
+                before, after = strip(before), strip(after)
             if after != before:
                 bad = ("refused-but-changed", "%r is refused (%s %r) but the set renders differently afterwards: %r -> %r" % (ev, mk, mv, before[:80], after[:80]))
         if bad is not None:
